@@ -71,6 +71,12 @@ func ReadMultipartForm(r io.Reader, boundary string, size, maxInMemoryFileSize i
 	if err != nil {
 		return nil, fmt.Errorf("cannot read multipart/form-data body: %s", err)
 	}
+	// The form ends at the closing boundary, the body ends after size bytes: what lies in
+	// between (an epilogue) still belongs to this body and must not be left in r.
+	if _, err = io.Copy(io.Discard, lr); err != nil {
+		f.RemoveAll() //nolint:errcheck
+		return nil, fmt.Errorf("cannot read multipart/form-data body: %s", err)
+	}
 	return f, nil
 }
 
